@@ -11,8 +11,9 @@ import json, os, shutil, subprocess, sys, tempfile, time
 
 VERIF = os.path.dirname(os.path.dirname(os.path.abspath(__file__)))
 cid = sys.argv[1]
-src = f"/tmp/seed_{cid}"
-dst = os.path.join(VERIF, "seeded", cid)
+rnd = sys.argv[sys.argv.index("--round") + 1] if "--round" in sys.argv else "1"
+src = f"/tmp/seed_{cid}" if rnd == "1" else f"/tmp/seed{rnd}_{cid}"
+dst = os.path.join(VERIF, "seeded", cid if rnd == "1" else f"{cid}_{rnd}")
 os.makedirs(dst, exist_ok=True)
 for f in ("patch.diff", "demo.py", "NOTE.md"):
     if os.path.exists(os.path.join(src, f)):
